@@ -211,11 +211,13 @@ CHECKS = {
         "technique": "Lean 4 proof (lock-discipline invariant by induction over request sequences, refutation witnesses) + regenerated tie lemmas + hostile-client scenarios in child processes with a probe client",
     },
     "C18": {
-        "text": "Lean 4 theorem on the type layer of the IDL: for every type built from the basic keywords, Vec, Map, non-empty "
-                "Tuple and references whose names are type identifiers that do not begin with a keyword or a composite "
-                "prefix, the type parser (ordered choice, white-space skipping terminals, Many with separator) reads back "
-                "exactly what the SignatureIDL printers write, whatever legal text follows; the excluded cases are "
-                "witnessed (void, empty tuple, names beginning with a keyword); tied by the regenerated keyword list, "
+        "text": "Lean 4 theorems on the type layer of the IDL: for every type built from the basic keywords, Vec, Map, "
+                "Tuple (the empty one included) and struct names (identifiers that are not a keyword), nested arbitrarily, "
+                "the type parser (ordered choice, keywords ending at a word boundary, white-space skipping terminals, "
+                "Kleene with separator) reads back exactly what the SignatureIDL printers write, whatever may follow a "
+                "type (parse_print, by mutual induction, any sufficient depth); for every signature type of C09's grammar "
+                "whose structs are in scope the type read back stands for the identical signature (signature_survives); "
+                "the repeated keywords are unreachable; the hypotheses are witnessed; tied by the regenerated keyword list, "
                 "alternative order, composite shapes, identifier patterns and printer formats, and by differential runs "
                 "of types, whole meta-objects and fuzzed text through the real parser",
         "note": "partial: the fn / sig / prop lines, //uid: comments, struct blocks and scope resolution are validated by the round-trip "
